@@ -28,6 +28,10 @@ func GenC05(seed uint64) *Plan {
 		// while it grows and is replaced
 		sp.InitLen = g.between(8, 14)
 	}
+	// (stops of referenced integrations only on histories without
+	// replacements: a pair that has reached its stop does not look at the chain
+	// again)
+	g.refStops = !reorgRun
 	g.depGraph(p, uint64(g.between(4, min(12, sp.InitLen-2))), 0)
 	if !reorgRun && g.chance(25) {
 		// the same graph on two sources, built by the repository's own
@@ -96,6 +100,13 @@ func (g *G) depGraph(p *Plan, depStart, depStop uint64) {
 		d := &model.Decl{Name: fmt.Sprintf("ref%d", i), Enabled: true, Event: ev,
 			Sources: []model.SrcRef{{Name: sp.Name, Start: 1}}}
 		d.Table.Name = "t_" + d.Name
+		if g.refStops && g.chance(20) {
+			// a referenced integration that ends early: it never records a
+			// block beyond its stop, so neither may the dependent (the stop is
+			// not below the block before the dependent's start: a dependent
+			// whose range begins later reports "ahead" for ever)
+			d.Sources[0].Stop = max(seedUpTo, depStart-1) + uint64(g.between(0, 5))
+		}
 		if sharedRefTable {
 			// both referenced integrations write the same table and column
 			d.Table.Name = "t_refs"
